@@ -160,12 +160,16 @@ func (t *Typedef) resolve(d *typeDictionary) []error {
 // resolve resolves Type t, as well as the underlying typedef for t.  If t
 // cannot be resolved then one or more errors are returned.
 func (t *Type) resolve(d *typeDictionary) (errs []error) {
+	if t.resolving {
+		return []error{fmt.Errorf("%s: cyclic type reference: %s", Source(t), t.Name)}
+	}
 	if t.YangType != nil {
 		// Report the errors of the first resolution again, otherwise a
 		// type that failed to resolve would look valid from now on.
 		return t.resolveErrs
 	}
-	defer func() { t.resolveErrs = errs }()
+	t.resolving = true
+	defer func() { t.resolving, t.resolveErrs = false, errs }()
 
 	// If t.Name is a base type then td will not be nil, otherwise
 	// td will be nil and of type *Typedef.
